@@ -116,20 +116,41 @@ func execParCmp(w *World, st *Step) {
 	}
 	var ref32 []uint32
 	var ref64 []uint64
+	// a recorded failing schedule (explicit choice list) replaces the seeded rounds
+	explicit := len(st.SC) > 0 && len(st.A) >= 4
+	if explicit {
+		rounds = 1
+	}
 	for k := 0; k <= rounds; k++ {
 		cfg := simrt.Config{Seed: r.U64(), Policy: schedPolicies[r.Intn(len(schedPolicies))]}
 		workers := workerPool[r.Intn(len(workerPool))]
 		if k == 0 {
 			cfg.Policy, workers = "lowest", 1 // the canonical execution
 		}
-		if k == 1 && len(st.SC) > 0 {
-			cfg.Choices = st.SC
+		if k == 1 && explicit {
+			cfg.Choices, workers = st.SC, int(st.A[3])
 		}
+		// on a failure in this round, record its schedule in the step: replay and minimisation
+		// then work on the explicit choice list
+		record := func(res *simrt.Result) {
+			if k > 0 && !explicit && simrt.Instrumented {
+				for len(st.A) < 4 {
+					st.A = append(st.A, 0)
+				}
+				st.A[3] = uint64(workers)
+				st.SC = append([]int32{}, res.Choices...)
+				if len(st.SC) == 0 {
+					st.SC = []int32{-1}
+				}
+			}
+		}
+		_ = record
 		var r32 *roaring.Bitmap
 		var r64 *roaring64.Bitmap
 		res := simrt.Run(cfg, func() { r32, r64 = call(workers) })
 		what := fmt.Sprintf(" [%s workers=%d policy=%s seed=%d round=%d]", parNames[which], workers, cfg.Policy, cfg.Seed, k)
 		if w.schedResult(&res, what) {
+			record(&res)
 			return
 		}
 		// the call must not have written to its inputs (a write by a worker conflicts with every reader of that input)
@@ -143,6 +164,7 @@ func execParCmp(w *World, st *Step) {
 			}
 			if !ok {
 				w.fail("C12+C07", "input-modified", parNames[which]+" wrote to one of its inputs", fmt.Sprintf("%s%s changed input slot %d: %s", parNames[which], what, sl, d))
+				record(&res)
 				if which == 3 {
 					w.rebuild64(sl)
 				} else {
@@ -168,6 +190,7 @@ func execParCmp(w *World, st *Step) {
 			same = a64[i] == ref64[i]
 		}
 		if !same {
+			record(&res)
 			w.fail("C12", "schedule-dependent", parNames[which]+": result differs from the canonical schedule", fmt.Sprintf("%s%s returned %d elements, the canonical single-worker execution %d", parNames[which], what, len(a32)+len(a64), len(ref32)+len(ref64)))
 			return
 		}
@@ -206,6 +229,26 @@ func execPoolDecode(w *World, st *Step) {
 	rounds := int(st.A[1])
 	if !simrt.Instrumented {
 		rounds = 1
+	}
+	// some histories start with decodes that fail (truncated stream, failing reader): whatever the
+	// error paths do with pooled adapters must not leak into the concurrent decodes that follow
+	if r.Chance(1, 2) && len(cs) > 0 {
+		for i := 0; i < 1+r.Intn(3); i++ {
+			c := cs[r.Intn(len(cs))]
+			cut := 0
+			if len(c.data) > 0 {
+				cut = r.Intn(len(c.data))
+			}
+			w.try("C10", func() {
+				tmp := roaring.New()
+				if r.Bool() {
+					tmp.ReadFrom(&simio.ChunkedReader{Data: c.data[:cut], Sizes: chunkSizes(r.U64()), ErrAt: -1})
+				} else {
+					tmp.ReadFrom(&simio.ChunkedReader{Data: c.data, Sizes: chunkSizes(r.U64()), ErrAt: cut})
+				}
+			})
+			w.St.Faults["failed-decode-before-concurrent-decodes"]++
+		}
 	}
 	for k := 0; k < rounds; k++ {
 		cfg := simrt.Config{Seed: r.U64(), Policy: schedPolicies[r.Intn(len(schedPolicies))]}
